@@ -338,6 +338,10 @@ pub struct Vm {
     /// Whether or not to run in debug mode.
     debug: bool,
 
+    /// Set when a chunk has outgrown the 16 bit wide jump operands while a conditional
+    /// was compiled (see [Vm::current_offset]).
+    offset_overflow: bool,
+
     pub unit_registry: UnitRegistry,
 }
 
@@ -366,6 +370,7 @@ impl Vm {
             frames: vec![CallFrame::root()],
             stack: vec![],
             debug: false,
+            offset_overflow: false,
             unit_registry: UnitRegistry::new(),
         }
     }
@@ -438,8 +443,21 @@ impl Vm {
         spans.extend(std::iter::repeat_n(span, 7));
     }
 
-    pub fn current_offset(&self) -> u16 {
-        self.bytecode[self.current_chunk_index].1.len() as u16
+    /// Current length of the chunk that is being compiled, as needed for jump offsets.
+    /// Jump operands (and the positions at which they are patched) are 16 bit wide: if the
+    /// chunk has grown beyond that, the offset can not be represented. This is recorded
+    /// and reported by the compiler instead of silently truncating the offset.
+    pub fn current_offset(&mut self) -> u16 {
+        let len = self.bytecode[self.current_chunk_index].1.len();
+        if len > (u16::MAX - 3) as usize {
+            self.offset_overflow = true;
+        }
+        len as u16
+    }
+
+    /// Has a jump offset overflowed since the last call?
+    pub(crate) fn take_offset_overflow(&mut self) -> bool {
+        std::mem::take(&mut self.offset_overflow)
     }
 
     pub fn patch_u16_value_at(&mut self, offset: u16, arg: u16) {
